@@ -8,6 +8,7 @@ import (
 	"testing"
 
 	zed "github.com/brimdata/super"
+	"github.com/brimdata/super/zcode"
 	"github.com/brimdata/super/zio"
 	"github.com/brimdata/super/zio/jsonio"
 	"github.com/brimdata/super/zio/zsonio"
@@ -86,6 +87,29 @@ func TestC02(t *testing.T) {
 			if !gen.ValueEq(v.Val, got) {
 				run.Violation(fmt.Sprintf("roundtrip how=%s symptom=value-changed kind=%s", strings.Split(how, "(")[0], kindOf(v.Val)),
 					map[string]any{"value": v.Name, "text": text, "original": gen.Describe(v.Val), "reparsed": gen.Describe(got)})
+			}
+		}
+	}
+	// (1b) every ordered pair of core values as a two-field record and as a
+	// two-element array (token boundaries between adjacent values)
+	core := gen.Core(zctx)
+	for _, a := range core {
+		for _, b := range core {
+			rec := zctx.MustLookupTypeRecord([]zed.Field{{Name: "a", Type: a.Val.Type()}, {Name: "b", Type: b.Val.Type()}})
+			var bld zcode.Builder
+			bld.Append(a.Val.Bytes())
+			bld.Append(b.Val.Bytes())
+			v := zed.NewValue(rec, bld.Bytes())
+			name := "{a:" + a.Name + ",b:" + b.Name + "}"
+			run.Eval(name)
+			text := safeFormat(func() string { return zson.FormatValue(v) })
+			got, err := zson.ParseValue(zed.NewContext(), text)
+			if err != nil {
+				run.Violation(fmt.Sprintf("roundtrip how=FormatValue symptom=formatted-text-does-not-parse kind=two-field-record(%s,%s)", kindOf(a.Val), kindOf(b.Val)),
+					map[string]any{"value": name, "text": text, "error": err.Error()})
+			} else if !gen.ValueEq(v, got) {
+				run.Violation(fmt.Sprintf("roundtrip how=FormatValue symptom=value-changed kind=two-field-record(%s,%s)", kindOf(a.Val), kindOf(b.Val)),
+					map[string]any{"value": name, "text": text, "original": gen.Describe(v), "reparsed": gen.Describe(got)})
 			}
 		}
 	}
